@@ -45,16 +45,10 @@ theorem good_prefix (s : Sc) (x y : List Byte) (h : Good s (x ++ y)) : Good s x 
   induction x generalizing s with
   | nil =>
     rw [good_nil]
-    have := good_head s _ h
-    unfold okAt at this ⊢
-    simp only [List.nil_append, Bool.and_eq_true, decide_eq_true_eq] at this
-    simp [this.1, isFold_zero]
+    exact good_head s ([] ++ y) h
   | cons c x ih =>
     rw [List.cons_append, good_cons] at h
     rw [good_cons]
-    refine ⟨?_, ih _ h.2⟩
-    have := h.1
-    unfold okAt at this ⊢
-    exact this
+    exact ⟨h.1, ih _ h.2⟩
 
 end Echse.Ical
